@@ -161,6 +161,8 @@ pub enum Rec {
     BClose { conn: usize, by: String },
     Panic { msg: String },
     Note { msg: String },
+    /// snapshot of pooler-side state read through pgcat's public API (JSON)
+    Probe { data: String },
 }
 
 #[derive(Clone, Debug)]
